@@ -228,3 +228,75 @@ Proof.
   induction sup as [|v s IH]; cbn [find first_match]; [reflexivity|].
   change (Session.pair_eqb a v) with (pv_eqb a v). destruct (pv_eqb a v); [reflexivity|exact IH].
 Qed.
+
+(* ---------- several items of one request ---------- *)
+Lemma handle_discover_length h sup offer : (length h <= length (fst (handle_discover h sup offer)))%nat.
+Proof.
+  unfold handle_discover. destruct offer as [|o r].
+  - pose proof (append_all_fresh (length h) (elems h sup) h nil_slice (le_n _) (fresh_nil _ _)) as H.
+    destruct (append_all h nil_slice (elems h sup)) as [h' res]. cbn [fst]. tauto.
+  - pose proof (match_loop_fresh (length h) (elems h sup) (o :: r) h nil_slice (le_n _) (fresh_nil _ _)) as H.
+    destruct (match_loop h nil_slice (o :: r) (elems h sup)) as [h' res]. cbn [fst]. tauto.
+Qed.
+
+(* a slice stays what it is as long as the array it lives in is left alone *)
+Lemma elems_stable h h' s :
+  ((s_cap s = 0 /\ s_len s = 0) \/ arr h' (s_arr s) = arr h (s_arr s))%nat -> elems h' s = elems h s.
+Proof.
+  intros [[_ Hl]|Ha]; unfold elems.
+  - rewrite Hl. reflexivity.
+  - rewrite Ha. reflexivity.
+Qed.
+
+Lemma discover_batch_correct offers : forall h sup,
+  (s_arr sup < length h)%nat ->
+  let '(h', ss) := discover_batch h sup offers in
+  map (elems h') ss = map (discover_spec (elems h sup)) offers /\
+  (length h <= length h')%nat /\
+  (forall a, (a < length h)%nat -> arr h' a = arr h a) /\
+  Forall (fun s => fresh_from (length h) h' s \/ (s_cap s = 0 /\ s_len s = 0)%nat) ss.
+Proof.
+  induction offers as [|o r IH]; intros h sup Hs; cbn [discover_batch map].
+  - split; [reflexivity|]. split; [lia|]. split; [auto|constructor].
+  - pose proof (handle_discover_correct h sup o) as H1. pose proof (handle_discover_length h sup o) as L1.
+    destruct (handle_discover h sup o) as [h1 s1]. cbn [fst] in L1. destruct H1 as (E1 & F1 & A1).
+    specialize (IH h1 sup ltac:(lia)). destruct (discover_batch h1 sup r) as [h2 ss]. destruct IH as (E2 & L2 & A2 & F2).
+    assert (Esup: elems h1 sup = elems h sup) by (apply elems_stable; right; apply A1; exact Hs).
+    split; [|split; [|split]].
+    + cbn [map]. f_equal.
+      * rewrite <- E1. apply elems_stable. destruct F1 as [Z|((Hlo & Hhi) & _)]; [left; exact Z|right; apply A2; exact Hhi].
+      * rewrite E2, Esup. reflexivity.
+    + lia.
+    + intros a Ha. rewrite A2 by lia. apply A1. exact Ha.
+    + constructor.
+      * destruct F1 as [Z|((Hlo & Hhi) & Ho & Hc & Hl)]; [right; exact Z|].
+        left. right. rewrite (A2 _ Hhi). split; [lia|]. split; [exact Ho|]. split; [exact Hc|exact Hl].
+      * eapply Forall_impl; [|exact F2]. intros s [[Z|((Hlo & Hhi) & Rest)]|Z]; [right; exact Z| |right; exact Z].
+        left. right. split; [lia|exact Rest].
+Qed.
+
+(* distinct non-empty replies of one batch live in distinct arrays *)
+Lemma discover_batch_disjoint offers : forall h sup,
+  (s_arr sup < length h)%nat ->
+  let '(h', ss) := discover_batch h sup offers in
+  forall i j si sj, nth_error ss i = Some si -> nth_error ss j = Some sj -> i <> j ->
+    s_cap si = 0%nat \/ s_cap sj = 0%nat \/ s_arr si <> s_arr sj.
+Proof.
+  induction offers as [|o r IH]; intros h sup Hs; cbn [discover_batch].
+  - intros i j si sj Hi. destruct i; discriminate.
+  - pose proof (handle_discover_correct h sup o) as H1. pose proof (handle_discover_length h sup o) as L1.
+    destruct (handle_discover h sup o) as [h1 s1]. cbn [fst] in L1. destruct H1 as (E1 & F1 & A1).
+    pose proof (discover_batch_correct r h1 sup ltac:(lia)) as C2.
+    specialize (IH h1 sup ltac:(lia)). destruct (discover_batch h1 sup r) as [h2 ss]. destruct C2 as (_ & _ & _ & F2).
+    intros i j si sj Hi Hj Hij.
+    assert (Hfirst: forall k sk, nth_error ss k = Some sk -> s_cap s1 = 0%nat \/ s_cap sk = 0%nat \/ s_arr s1 <> s_arr sk).
+    { intros k sk Hk. apply nth_error_In in Hk. rewrite Forall_forall in F2. specialize (F2 _ Hk).
+      destruct F1 as [[Z _]|((Hlo & Hhi) & _)]; [left; exact Z|].
+      destruct F2 as [[[Z _]|((Hlo2 & _) & _)]|[Z _]]; [right; left; exact Z| |right; left; exact Z].
+      right. right. lia. }
+    destruct i as [|i], j as [|j]; cbn [nth_error] in Hi, Hj.
+    + congruence.
+    + injection Hi as <-. apply (Hfirst j sj Hj).
+    + injection Hj as <-. destruct (Hfirst i si Hi) as [Z|[Z|Z]]; [right; left; exact Z|left; exact Z|right; right; congruence].
+    + apply (IH i j si sj Hi Hj). congruence.
+Qed.
